@@ -177,7 +177,17 @@ pub fn run(a: &Args) {
             let arg = if class == "noeq" { format!("{}-novalue", key) } else { format!("{}={}", key, text) };
             argv.push("-o".into());
             argv.push(arg);
-            let class = if class == "int" && text.starts_with('+') { "plusint" } else { class };
+            // texts some integer parsers accept and others do not: typed either way
+            let trimmed: Option<i32> = text.trim().parse().ok();
+            let (class, ival) = if class == "int" && text.starts_with('+') {
+                ("plusint", ival)
+            } else if class == "int" && (text == "-0" || (text.len() > 1 && text.trim_start_matches('-').starts_with('0'))) {
+                ("altint", ival)
+            } else if class == "overflow" && text.trim() != text && trimmed.is_some() {
+                ("altint", trimmed.unwrap())
+            } else {
+                (class, ival)
+            };
             opts_j.push(json!({"k": hexs(key.as_bytes()), "text": hexs(text.as_bytes()), "class": class, "ival": ival}));
         }
         argv.push(target.clone());
